@@ -226,6 +226,8 @@ def _shape(v):
         return 'O[' + ','.join(_shape(x) for x in v) + ']'
     if isinstance(v, dict):
         return 'D{' + ','.join(f'{k}:{_shape(x)}' for k, x in v.items()) + '}'
+    if isinstance(v, (str, int, tuple)):
+        return repr(v)
     return f'?{type(v).__name__}'
 
 
@@ -419,13 +421,29 @@ def r2_cst(a, tier):
     if not ok:
         rep.fail(fn.qualname, 'call-append', 'call() does not add the rule result with state.append(result.node) '
                  '(one element of the caller)', fn.loc)
-    # Sequence._parse merges element results in order with cstmerge
+    # Sequence._parse: interpreted over stub elements returning prescribed values; only None (no value) is skipped
     fn = a.p.func('tatsu.peg.syntax.Sequence._parse')
-    ok = _sequence_merges_in_order(fn)
-    rep.add({'fn': fn.qualname, 'merges_in_order': ok})
-    if not ok:
-        rep.fail(fn.qualname, 'sequence-merge', 'Sequence._parse does not fold element results left-to-right with '
-                 'cstmerge(out, r) over self.sequence', fn.loc)
+    stub = ast.parse('def _parse(self, ctx):\n    return self.value\ndef _add_defined(self, ctx):\n    return None\n').body
+    stub_methods = {'_parse': stub[0], '_add_defined': stub[1]}
+    ea, eb, ec = Elem(31), Elem(32), Elem(33)
+    seq_cases = [
+        [ea, None, eb], [ea, CL([]), eb], [CL([])], [ea, ''], [None, None], [[ea, eb], ec], [ea, 0], [ea, CL([eb]), None],
+        [None, ea], [ea, [eb, ec]], [CL([ea]), CL([eb])], [ea, ()],
+    ]
+    sev = MiniEval({**ev.globals, 'Group': type('Group', (), {}), 'isinstance': isinstance})
+    for vals in seq_cases:
+        elems = [Obj(stub_methods, value=v) for v in vals]
+        me = Obj({'_add_defined': stub[1]}, sequence=elems)
+        got = sev.call_function(fn.node, [me, Obj({})])
+        want = None
+        for v in vals:
+            if v is not None:
+                want = _oracle_merge(want, v)
+        rep.add({'fn': 'Sequence._parse', 'element_values': [_shape(v) for v in vals], 'got': _shape(got), 'want': _shape(want)})
+        if _shape(got) != _shape(want):
+            rep.fail(fn.qualname, f'sequence:{[_shape(v) for v in vals]}',
+                     f'Sequence._parse over element values {[_shape(v) for v in vals]} returns {_shape(got)}, documented: '
+                     f'{_shape(want)} (elements in order, only None is "no value"; an empty closure [] is an element)', fn.loc)
     # order of operands in result displays (accumulated first)
     for name, f in fns.items():
         if name in ('cstadd', 'cstaddlist', 'cstmerge'):
